@@ -116,8 +116,19 @@ def ini_escape(v: str) -> str:
     return v.replace('%', '%%')          # configparser's BasicInterpolation: %% is a literal %
 
 
+def triple_safe(v: str) -> bool:
+    """a text with real newlines that can be written as a triple-quoted value over several (indented) lines of an INI
+    file and come back unchanged: configparser strips every continuation line and drops comment lines"""
+    lines = v.split('\n')
+    return (len(lines) >= 2 and all(l != '' and l == l.strip() and l[0] not in '#;' for l in lines)
+            and all(c.isalnum() or c in ' #=[]:/.-_,;' for l in lines for c in l))
+
+
 def ini_str(v: str, style: str) -> str:
-    """style: 'plain' (falls back to repr when not safe) | 'repr' | 'dq'"""
+    """style: 'plain' (falls back to repr when not safe) | 'repr' | 'dq' | 'triple' / 'triple2' (multi-line, falls back to repr)"""
+    if style in ('triple', 'triple2') and triple_safe(v):
+        q3 = "'''" if style == 'triple' else '"""'
+        return q3 + ini_escape(v).replace('\n', '\n    ') + q3
     if style == 'plain' and plain_safe(v):
         return ini_escape(v)
     if style == 'dq':
@@ -133,7 +144,7 @@ def ini_value_text(v: Any, style: str) -> str:
     if isinstance(v, str):
         return ini_str(v, style)
     if isinstance(v, list):
-        if style == 'plain' and len(v) >= 2 and all(plain_safe(x) for x in v):
+        if style == 'plain' and len(v) >= 1 and all(plain_safe(x) for x in v):
             return ''.join('\n    ' + ini_escape(x) for x in v)
         return '[' + ', '.join(ini_escape(repr(x)) for x in v) + ']'
     raise TypeError(v)
@@ -297,6 +308,61 @@ class Check(PropertyCheck):
                    'INI values are written with %% for a literal % (configparser interpolation)',
                    '`config`, `help`, `version` are not settable from a file (configargparse passes --help=true: exit 2)']
 
+
+    # ------------------------------------------------------------------ corpus: fixed cases, run first
+    def stage_corpus(self, out: List[Violation]) -> None:
+        """Deterministic end-to-end cases (independent of the seed), one group per class of past failure."""
+        cases: List[dict] = []
+        ini_fmts = ('setup.cfg', 'pydoctor.ini;')
+        # (1) a text with a real newline, written triple-quoted over several lines (the syntax IniConfigParser documents)
+        texts = ['My Project\nAPI reference', 'a\nb\nc', 'one two\nthree = four']
+        for o in self.table:
+            if o['kind'] not in ('KStore', 'KAppend') or o['type'] != 'TyStr' or o['choices'] or o['is_config_file'] \
+                    or o['dest'] in CLASS_VALUES or not o['keys']:
+                continue
+            opt = [x for x in o['strings'] if x.startswith('--')][0]
+            for ti, t in enumerate(texts if o['dest'] in ('projectname', 'intersphinx', 'htmlsubjects') else texts[:1]):
+                for fmt in ini_fmts:
+                    for st in ('triple', 'triple2'):
+                        cases.append({'k': 'e2e_option', 'opt': o['dest'], 'key': o['keys'][0], 'fmt': fmt, 'style': st,
+                                      'value': t, 'cli': ['%s=%s' % (opt, t)], 'override': None,
+                                      'text': '%s\n%s = %s\n' % (FORMATS[fmt][1], o['keys'][0], ini_str(t, st))})
+            # closing quotes on a line of their own: the text ends with a newline
+            if o['dest'] == 'projectname':
+                for fmt in ini_fmts:
+                    cases.append({'k': 'e2e_option', 'opt': o['dest'], 'key': o['keys'][0], 'fmt': fmt, 'style': 'triple',
+                                  'value': 'a\nb\n', 'cli': ['%s=a\nb\n' % opt], 'override': None,
+                                  'text': "%s\n%s = '''a\n    b\n    '''\n" % (FORMATS[fmt][1], o['keys'][0])})
+        # (2) repeatable options in the one-value-per-line style with ONE, two and three values
+        for o in self.table:
+            if o['kind'] != 'KAppend':
+                continue
+            opt = o['strings'][0]
+            items = ['HIDDEN:a', 'PUBLIC:b.*', 'PRIVATE:c'] if o['dest'] == 'privacy' else \
+                ['https://docs.python.org/3/objects.inv', 'second item', 'third']
+            for n in (1, 2, 3):
+                for fmt in ini_fmts + ('pydoctor.ini',):
+                    for key in o['keys'][:1] if n > 1 else o['keys']:
+                        cases.append({'k': 'e2e_option', 'opt': o['dest'], 'key': key, 'fmt': fmt, 'style': 'plain',
+                                      'value': items[:n], 'cli': ['%s=%s' % (opt, x) for x in items[:n]], 'override': None,
+                                      'text': '%s\n%s =%s\n' % (FORMATS[fmt][1], key, ''.join('\n    ' + x for x in items[:n]))})
+        payloads = [self.e2e_payload(dict(c, k='e2e')) for c in cases]
+        impl = lib.run_impl_worker(WORKER, payloads, jobs=8, timeout=3000)
+        self.evaluations += 2 * len(cases)
+        for c, p, r in zip(cases, payloads, impl):
+            fails = self.judge_e2e(c, r)
+            fr = r['runs'][0]
+            if fr['opts'] is not None and isinstance(c['value'], str) and c['opt'] == 'projectname' \
+                    and fr['opts']['projectname'] != c['value']:
+                fails.append('read back %r, written %r' % (fr['opts']['projectname'], c['value']))
+            if fails:
+                fname = FORMATS[c['fmt']][0]
+                out.append(Violation('oracle', ('corpus, option %s, %s (%s): ' % (c['opt'], c['fmt'], c['style']))
+                                     + '; '.join(fails)[:700], case=dict(c),
+                                     observed={'file_text': p['files'][fname], 'file_run': _brief(fr),
+                                               'cli_run': _brief(r['nofile_runs'][0])}))
+        self.stats['corpus_cases'] = len(cases)
+        self.sample({'stage': 'corpus', 'file': payloads[0]['files'], 'cli': cases[0]['cli']})
 
     # ------------------------------------------------------------------ stage 0: several config files at once; histories
     MF_FILES = {
@@ -572,7 +638,7 @@ class Check(PropertyCheck):
         n = 3 if self.tier == 'quick' else 4
         vals = strings_upto(ALPHA, n)
         pool = ['x', 'a b', "'q'", '"q"', "['a', 'b']", '[x]', '[1, 2]', 'a\nb', "'a\\nb'", "'''t\nu'''", '', "'\\x1'", '[]',
-                "['a',\n 'b']", 'a\n\nb', '"a" "b"', "[('a',)]", "['a' 'b']", '"""x"""', "'it''s'", '[ ]', '1', 'true']
+                "['a',\n 'b']", 'a\n\nb', '"a" "b"', '\nx', '\nx\ny', "'''a\nb\n'''", '"""t u\nv"""', '\n\'q\'', "[('a',)]", "['a' 'b']", '"""x"""', "'it''s'", '[ ]', '1', 'true']
         cases: List[dict] = []
         for v in vals:
             cases.append({'k': 'ini', 'text': '[pydoctor]\nkey = ' + v.replace('\n', '\n    ') + '\n'})
@@ -904,9 +970,10 @@ class Check(PropertyCheck):
         subj = strings_upto(ALPHA, n) + ['a%b', 'C:\\dir', '\xe9\\', 'tab\there', "it's \"x\"", 'a#b', '1.10', 'true']
         if self.tier == 'thorough':
             subj += [''.join(self.rng.choice(ALPHA + ['%', '\t', '\xe9']) for _ in range(self.rng.randint(4, 8))) for _ in range(1500)]
+        subj += ['a\na', 'a a\na', 'a=a\n[a]\na#', 'x\ny\nz']
         for s in subj:
             for fmt in ('setup.cfg', 'pydoctor.ini', 'pydoctor.ini;'):
-                for st in ('repr', 'dq'):
+                for st in ('repr', 'dq') + (('triple', 'triple2') if triple_safe(s) and fmt != 'pydoctor.ini' else ()):
                     cases.append({'k': 'e2e_quote', 'opt': 'projectname', 'key': 'project-name', 'fmt': fmt, 'style': st,
                                   'value': s, 'cli': ['--project-name=' + s], 'override': None})
         n_quote = len(cases)
@@ -1079,6 +1146,7 @@ class Check(PropertyCheck):
         self.table = load_table()
         self.stats['options_in_table'] = len(self.table)
         out: List[Violation] = []
+        self.stage_corpus(out)
         self.stage_multifile(out)
         self.stage_quote(out)
         self.stage_parsers(out)
@@ -1095,7 +1163,7 @@ class Check(PropertyCheck):
             self.tier = 'thorough'
             self.table = load_table()
             out: List[Violation] = []
-            for stage in (self.stage_multifile, self.stage_scenarios, self.stage_options, self.stage_quote, self.stage_parsers):
+            for stage in (self.stage_corpus, self.stage_multifile, self.stage_scenarios, self.stage_options, self.stage_quote, self.stage_parsers):
                 try:
                     stage(out)
                 except RuntimeError as e:          # the model may be the thing that is broken
